@@ -192,12 +192,6 @@ func (s *Stream) reset() {
 }
 
 func (s *Stream) readBuf() []byte {
-	if s.filledBuffer {
-		s.bufSize *= 2
-		remainBuf := s.buf
-		s.buf = make([]byte, s.bufSize)
-		copy(s.buf, remainBuf)
-	}
 	remainLen := s.length - s.cursor
 	remainNotNulCharNum := int64(0)
 	for i := int64(0); i < remainLen; i++ {
@@ -207,7 +201,20 @@ func (s *Stream) readBuf() []byte {
 		remainNotNulCharNum++
 	}
 	s.length = s.cursor + remainNotNulCharNum
-	return s.buf[s.cursor+remainNotNulCharNum:]
+	// Grow when the last read filled the space it was offered, and also when there is no room left
+	// for one more byte and the sentinel: reads that did not fill the buffer followed by in-place
+	// replacements (an ill-formed byte becomes the three bytes of U+FFFD) can use it up, and a
+	// zero-length Read makes no progress. The replacements also make s.buf longer than bufSize.
+	if s.filledBuffer || int64(len(s.buf))-s.length < 2 {
+		s.bufSize *= 2
+		for s.bufSize < int64(len(s.buf)) {
+			s.bufSize *= 2
+		}
+		remainBuf := s.buf
+		s.buf = make([]byte, s.bufSize)
+		copy(s.buf, remainBuf)
+	}
+	return s.buf[s.length:]
 }
 
 func (s *Stream) read() bool {
